@@ -478,3 +478,117 @@ Qed.
 Example gen_notted_phash_differs_nonvacuous :
   pred_phash (PXhr true) <> [] /\ gen_pred_phash (PNot (PXhr true)) <> gen_pred_phash (PXhr true).
 Proof. split; [vm_compute; discriminate|apply gen_notted_phash_differs; vm_compute; discriminate]. Qed.
+
+(* ------------------------------------------------------------ attr_wrapped_view: when the three attributes exist *)
+Theorem gen_attr_wrapped_is_model v : gen_attr_wrapped v = attr_wrapped v.
+Proof.
+  unfold gen_attr_wrapped, attr_wrapped.
+  destruct (r_accept v); destruct (Z.eqb (r_order v) max_order); destruct (text_eqb (r_phash v) default_phash);
+    reflexivity.
+Qed.
+
+(* ------------------------------------------------------------ sort_accept_offers and its two nested functions *)
+Theorem gen_offer_sort_key_is_model order maxw o : gen_offer_sort_key order maxw o = offer_key order maxw o.
+Proof. unfold gen_offer_sort_key, gen_find_order_index, offer_key. destruct (o_params o); reflexivity. Qed.
+
+Lemma insert_by_ext {A} (f g : A -> A -> bool) x l : (forall a b, f a b = g a b) -> insert_by f x l = insert_by g x l.
+Proof. intros H. induction l as [|y r IH]; simpl; [reflexivity|]. rewrite H, IH. reflexivity. Qed.
+Lemma isort_ext {A} (f g : A -> A -> bool) l : (forall a b, f a b = g a b) -> isort f l = isort g l.
+Proof. intros H. induction l as [|y r IH]; simpl; [reflexivity|]. rewrite IH. apply insert_by_ext. exact H. Qed.
+
+Theorem gen_sort_accept_offers_is_model offers order :
+  gen_sort_accept_offers offers order = sort_accept_offers offers order.
+Proof.
+  unfold gen_sort_accept_offers, sort_accept_offers. apply isort_ext. intros a b.
+  rewrite !gen_offer_sort_key_is_model. reflexivity.
+Qed.
+
+(* ------------------------------------------------------------ MultiView.add (state of self threaded through) *)
+Lemma media_set_set k (v w : list entry) m : media_set k v (media_set k w m) = media_set k v m.
+Proof.
+  induction m as [|[k' v'] m IH]; simpl.
+  - rewrite text_eqb_refl. reflexivity.
+  - destruct (text_eqb k k') eqn:E; simpl; [rewrite text_eqb_refl; reflexivity|]. rewrite E, IH. reflexivity.
+Qed.
+
+Lemma list_set_app {A} (p : list A) x y r :
+  list_set (Z.of_nat (length p)) x (p ++ y :: r) = p ++ x :: r.
+Proof.
+  induction p as [|a p IH]; [reflexivity|].
+  cbn [length app list_set]. destruct (Z.eqb_spec (Z.of_nat (S (length p))) 0) as [E|_]; [lia|].
+  replace (Z.of_nat (S (length p)) - 1)%Z with (Z.of_nat (length p)) by lia. rewrite IH. reflexivity.
+Qed.
+
+Lemma replace_phash_cons ph new x t :
+  replace_phash ph new (x :: t) =
+  if text_eqb ph (e_phash x) then Some (new :: t)
+  else match replace_phash ph new t with Some r' => Some (x :: r') | None => None end.
+Proof. reflexivity. Qed.
+
+Lemma len_snoc {A} (p : list A) x : Z.of_nat (length (p ++ [x])) = (Z.of_nat (length p) + 1)%Z.
+Proof. rewrite app_length. simpl. lia. Qed.
+
+Theorem gen_mv_add_is_model m v order phash accept ao :
+  gen_mv_add m v order phash accept ao = mv_add m v order phash accept ao.
+Proof.
+  unfold gen_mv_add, mv_add.
+  match goal with
+  | |- ?F (mv_views m) 0%Z = _ =>
+      enough (H : forall p l, mv_views m = p ++ l ->
+                 F l (Z.of_nat (length p)) =
+                 match replace_phash phash (order, v, phash) l with
+                 | Some l' => mkMV (p ++ l') (mv_media m) (mv_accepts m)
+                 | None =>
+                     match accept with
+                     | None => mkMV (isort entry_leb (mv_views m ++ [(order, v, phash)])) (mv_media m) (mv_accepts m)
+                     | Some a =>
+                         let subset := match assoc (o_full a) (mv_media m) with Some s => s | None => [] end in
+                         match replace_phash phash (order, v, phash) subset with
+                         | Some subset' => mkMV (mv_views m) (media_set (o_full a) subset' (mv_media m)) (mv_accepts m)
+                         | None =>
+                             mkMV (mv_views m)
+                                  (media_set (o_full a) (isort entry_leb (subset ++ [(order, v, phash)])) (mv_media m))
+                                  (sort_accept_offers (if offer_mem a (mv_accepts m) then mv_accepts m else mv_accepts m ++ [a])
+                                                      (match ao with Some o => o | None => [] end))
+                         end
+                     end
+                 end)
+  end.
+  { pose proof (H nil (mv_views m) eq_refl) as H0. change (Z.of_nat (length (@nil entry))) with 0%Z in H0.
+    rewrite H0. destruct (replace_phash _ _ (mv_views m)); reflexivity. }
+  intros p l. revert p. induction l as [|x t IH]; intros p Hp.
+  - (* no entry of views has this phash *)
+    cbn [replace_phash]. lazy beta iota zeta.
+    destruct accept as [a|]; [|reflexivity].
+    rewrite ?gen_sort_accept_offers_is_model.
+    unfold media_store, media_lookup, offerset_add, opt_list_get.
+    set (S0 := match assoc (o_full a) (mv_media m) with Some s => s | None => [] end).
+    rewrite !media_set_set.
+    match goal with
+    | |- ?F2 S0 0%Z = _ =>
+        enough (H2 : forall q l2, S0 = q ++ l2 ->
+                   F2 l2 (Z.of_nat (length q)) =
+                   match replace_phash phash (order, v, phash) l2 with
+                   | Some l' => mkMV (mv_views m) (media_set (o_full a) (q ++ l') (mv_media m)) (mv_accepts m)
+                   | None =>
+                       mkMV (mv_views m)
+                            (media_set (o_full a) (isort entry_leb (S0 ++ [(order, v, phash)])) (mv_media m))
+                            (sort_accept_offers (if offer_mem a (mv_accepts m) then mv_accepts m else mv_accepts m ++ [a])
+                                                (match ao with Some o => o | None => [] end))
+                   end)
+    end.
+    { pose proof (H2 nil S0 eq_refl) as H0. change (Z.of_nat (length (@nil entry))) with 0%Z in H0.
+      rewrite H0. destruct (replace_phash _ _ S0); reflexivity. }
+    intros q l2. revert q. induction l2 as [|y t2 IH2]; intros q Hq.
+    + reflexivity.
+    + rewrite replace_phash_cons. lazy beta iota zeta.
+      destruct (text_eqb phash (e_phash y)).
+      * rewrite media_set_set. rewrite Hq, list_set_app. reflexivity.
+      * rewrite <- (len_snoc q y). rewrite (IH2 (q ++ [y])) by (rewrite <- app_assoc; exact Hq).
+        destruct (replace_phash phash (order, v, phash) t2); [rewrite <- app_assoc|]; reflexivity.
+  - rewrite replace_phash_cons. lazy beta iota zeta.
+    destruct (text_eqb phash (e_phash x)).
+    + rewrite Hp, list_set_app. reflexivity.
+    + rewrite <- (len_snoc p x). rewrite (IH (p ++ [x])) by (rewrite <- app_assoc; exact Hp).
+      destruct (replace_phash phash (order, v, phash) t); [rewrite <- app_assoc|]; reflexivity.
+Qed.
